@@ -380,3 +380,19 @@ def ancestor_walk(ctx, rule='K4'):
     ctx.inst(rule, 'Layer::is_visible#ancestors', ok, 'is_visible tests the VISIBLE flag (%s) and walks the ancestor chain by %s' % (
         flag, 'recursion' if recursive else 'a loop carried through the parents table' if loops else 'an iterator over parents' if adaptors else
         'NOTHING UNBOUNDED: only a fixed number of ancestors is examined'), b.span, key=b.name + '|%s|ancestors' % rule)
+
+
+def cel_rows_grow_only(ctx, rule='K3'):
+    """storage order of cel chunks must not matter: the per-frame row is only ever grown before slot `layer` is written"""
+    import panics as _p
+    import C04 as _c04
+    fx = ctx.fx
+    ab = ctx.anchor('asefile::cel::CelsData::add_cel')
+    if ab is None:
+        return
+    sites = [s_ for s_ in _p.inventory(fx, [ab]) if s_.kind in ('ext:index', 'ext:index_mut') and 'layer_index' in s_.what]
+    ctx.floor('slot accesses in add_cel', len(sites), 2)
+    for s_ in sites:
+        ok, why = _c04.row_add_cel_inner(ctx, s_)
+        ctx.inst(rule, 'add_cel#grow-only', ok, 'the cel row is only ever grown (resize_with(layer+1) under len < layer+1) before slot `layer` is used, so a lower '
+                 'layer arriving later cannot truncate stored cels: %s' % why, s_.span, key=ctx.key(ab.name, rule, 'grow-only', ''))
